@@ -6,7 +6,7 @@ import copy
 from props.common import call, viol, hx, set_knobs
 from sim.objects import build, snapshot, order_fingerprint
 from ref import fa, cfg as rcfg, pda as rpda
-from gen import fa as genfa, cfg as gencfg, pda as genpda
+from gen import fa as genfa, cfg as gencfg, pda as genpda, edits
 import gambatools.dfa_algorithms as da
 import gambatools.nfa_algorithms as na
 import gambatools.pda_algorithms as pa
@@ -43,6 +43,11 @@ def gen_cases(rng, tier, rnd):
                 s, rank = genfa.rename(c, rng)
                 cases.append({'kind': 'pda', 'spec': s, 'rank': rank, 'abs': hx(c), 'limit': rng.choice([30, 100, 1000]),
                               'words': _pick_words(rng, s['Sigma'], lambda w: rpda.accepts(s, w), 4, 4, 2)})
+    for _ in range({'quick': 1, 'thorough': 4, 'selftest': 1}[tier]):
+        # the closure limit raised above its default, and a run whose epsilon path needs more than 1000 search steps
+        a = genpda.big_closure_pda(rng, depth=10)
+        s, rank = genfa.rename(a, rng)
+        cases.append({'kind': 'pda', 'spec': s, 'rank': rank, 'abs': hx(a), 'limit': rng.choice([2500, 3000, 5000]), 'words': [s['Sigma'][0]]})
     while len(cases) < n:
         r = rng.random()
         if r < 0.15:
@@ -68,6 +73,9 @@ def gen_cases(rng, tier, rnd):
             rng.shuffle(L)
             L.sort(key=lambda w: -len(w))
             cases.append({'kind': 'cfg', 'spec': s, 'rank': rank, 'abs': hx(a), 'words': L[:4] + L[-1:]})
+    for c in cases:
+        if c['kind'] in ('dfa', 'nfa', 'pda') and rng.random() < 0.3:
+            c['edit'] = edits.propose(rng, c['spec'])
     return cases
 
 
@@ -173,11 +181,38 @@ def _deriv_plain(val):
 
 def run_case(case, env):
     kind = case['kind']
-    s = case['spec']
-    obj = build(s)
-    snap0 = snapshot(obj)
+    obj = build(case['spec'])
     out = {'viol': [], 'evals': 0, 'ticks': 0, 'probes': {'kind_' + kind: 1}, 'hist': {}}
     dig = []
+    nontrivial = _run_phase(case, env, obj, out, dig)
+    if case.get('edit') and kind in ('dfa', 'nfa', 'pda'):
+        # object-lifetime history: simulate, edit the live object in place, simulate again
+        set_knobs(limit=1000)
+        try:
+            edits.apply(obj, case['edit'])
+        except Exception:
+            out['probes']['edit_raised'] = 1
+        s1 = snapshot(obj)
+        bad = fa.validate_dfa(s1) if kind == 'dfa' else (fa.validate_nfa(s1) if kind == 'nfa' else rpda.validate(s1))
+        if bad:
+            return {'harness_error': 'edit produced an invalid object: %s' % (case['edit'],)}
+        out['probes']['inplace_edit_between_calls'] = 1
+        n0 = len(out['viol'])
+        nontrivial = _run_phase(case, env, obj, out, dig) or nontrivial
+        for v in out['viol'][n0:]:
+            v['tags'] = list(v.get('tags', [])) + ['after-inplace-edit']
+    if nontrivial:
+        out['nontrivial_keys'] = [case['abs']]
+        out['probes']['nontrivial'] = 1
+    fp = order_fingerprint(obj, case.get('rank', {}))
+    out['scheds'] = [hx([case['abs'], fp])]
+    out['digest'] = hx([dig, fp])
+    return out
+
+
+def _run_phase(case, env, obj, out, dig):
+    kind = case['kind']
+    snap0 = snapshot(obj)
     nontrivial = False
 
     def record(st, val, ticks, site, w):
@@ -223,10 +258,10 @@ def run_case(case, env):
                 dig.append(None)
     elif kind == 'pda':
         set_knobs(limit=case.get('limit', 1000))
-        out['probes']['limit_%s' % case.get('limit', 1000)] = 1
+        out['probes']['limit_%s' % ('above_default' if case.get('limit', 1000) > 1000 else case.get('limit', 1000))] = 1
         for w in case['words']:
             exact = rpda.accepts(snap0, w)
-            pb = 100_000 + 2500 * (case.get('limit', 1000) + 30) * (len(w) + 1)
+            pb = 100_000 + 2500 * (max(case.get('limit', 1000), 1000) + 30) * (len(w) + 1)
             st, lib_acc, ticks = call(env, pa.pda_accepts_word, obj, w, budget=pb)
             if not record(st, lib_acc, ticks, 'pda_accepts_word', w):
                 continue
@@ -257,7 +292,7 @@ def run_case(case, env):
         set_knobs(limit=1000)
     else:  # cfg
         if not rcfg.is_cnf(snap0) or rcfg.validate(snap0):
-            return out
+            return False
         L = rcfg.lang_upto(snap0, max([len(w) for w in case['words']] + [0]))
         for w in case['words']:
             if not w or w not in L:
@@ -281,13 +316,7 @@ def run_case(case, env):
     after = snapshot(obj)
     if after != snap0:
         out['viol'].append(viol('argument-mutated', kind + '_simulate', {'before': snap0, 'after': after}))
-    if nontrivial:
-        out['nontrivial_keys'] = [case['abs']]
-        out['probes']['nontrivial'] = 1
-    fp = order_fingerprint(obj, case.get('rank', {}))
-    out['scheds'] = [hx([case['abs'], fp])]
-    out['digest'] = hx([dig, fp])
-    return out
+    return nontrivial
 
 
 def _has_eps_cycle(s):
@@ -309,6 +338,10 @@ def _has_eps_cycle(s):
 
 def shrink(case):
     kind = case['kind']
+    if case.get('edit'):
+        c = copy.deepcopy(case)
+        del c['edit']
+        yield c
     for i in range(len(case['words'])):
         if len(case['words']) > 1:
             c = copy.deepcopy(case)
